@@ -49,8 +49,12 @@ def run(rep, tier, driver):
             x = lit() if rng.random() < 0.85 else ""
             if "\n" in x or "\r" in x:
                 x = "Glc"
+            if rng.random() < 0.2:
+                # characters that str.splitlines() treats as line boundaries but a text file read line by line does not
+                sep = rng.choice(["\x0b", "\x0c", "\x1c", "\x1d", "\x1e", "\x85", "\u2028", "\u2029"])
+                x = rng.choice([x + sep, x + sep + rng.choice(apigen.GOOD), sep + x])
             raw.append(rng.choice(["", "", " ", "\t"]) + x + rng.choice(["", " ", "  "]))
-        nl = rng.choice(["\n", "\n", "\r\n"])
+        nl = rng.choice(["\n", "\n", "\r\n", "\r"])
         text = nl.join(raw)
         if raw and rng.random() < 0.7:
             text += nl
